@@ -221,17 +221,6 @@ theorem tensorIndexGuard_iff (size : Nat) (l : List Int) :
 
 /-! ### Elementwise operations, expand, cat -/
 
-/-- base `__add__(Tensor)` accepts only what torch broadcasting accepts (it additionally refuses
-0-d / 1-d tensors). -/
-theorem addTensorGuard_sound (a b s : List Nat) (h : addTensorGuard a b = .ok s) :
-    broadcastShapes? a b = some s := by
-  simp only [addTensorGuard, mulGuard] at h
-  split at h
-  · cases h
-  · cases hb : broadcastShapes? a b with
-    | none => simp [hb] at h
-    | some t => simp [hb] at h; rw [h]
-
 /-- The base `expand` guard raises whenever fewer than two sizes are given or the last two are
 neither the matrix shape nor `(-1, -1)`. -/
 theorem expandMatrixGuard_sizes (A : List Nat) (m n : Nat) (S : List Int) (r c : Int) (batch : List Int)
@@ -330,6 +319,157 @@ theorem fmodIndex_in_range (size : Nat) (i : Nat) (h : i < size) : fmodIndex siz
 theorem fmodIndex_wraps_counterexample : fmodIndex 2 2 = 0 ∧ indexValid 2 2 = false ∧
     fmodIndex 2 (-3) = -1 := by decide
 
+/-! ### Elementwise guards, add_diagonal, inv_quad_logdet, Dense expand: exact characterisations -/
+
+/-- **base `add_diagonal` accepts a diagonal exactly when torch accepts `dense + diag_embed(d)` AND the sum keeps the
+operator's own shape** — every batch rank, every diag shape (0-d, `(…, n)`, `(…, 1)`).  (torch additionally lets `d` add new
+batch dimensions, which the guard refuses: `addDiagonalGuard_stricter_example`.) -/
+theorem addDiagonalGuard_iff (A : List Nat) (n : Nat) (d : List Nat) :
+    addDiagonalGuard (A ++ [n, n]) d = .ok (A ++ [n, n]) ↔
+      addDiagonalShape? (A ++ [n, n]) d = some (A ++ [n, n]) := by
+  rcases shape_cases1 d with rfl | ⟨D, k, rfl⟩
+  · simp [addDiagonalGuard, addDiagonalShape?, split2_append]
+  · have hb : (broadcastShapes? A D).map (· ++ [n, n]) = some (A ++ [n, n]) ↔ broadcastShapes? A D = some A := by
+      cases broadcastShapes? A D with
+      | none => simp
+      | some r => simp
+    simp only [addDiagonalGuard, addDiagonalShape?, split2_append, ne_eq, not_true_eq_false, if_false,
+      List.reverse_append, List.reverse_cons, List.reverse_nil, List.nil_append, List.cons_append,
+      List.reverse_reverse, expandOk_append_one]
+    by_cases hk : k = 1
+    · subst hk
+      simp only [not_true_eq_false, if_false, decide_true, Bool.or_true, Bool.true_and, or_true, if_true, hb]
+      rw [← expandOk_iff_broadcast D A]
+      cases expandOk D A <;> simp
+    · simp only [hk, not_false_eq_true, if_true, decide_false, Bool.or_false, or_false]
+      by_cases hn : k = n
+      · subst hn
+        simp only [decide_true, Bool.true_and, if_true, hb]
+        rw [← expandOk_iff_broadcast D A]
+        cases expandOk D A <;> simp
+      · simp [hn]
+/-- torch accepts a diag with an extra batch dimension (result 2×3×3); the library's guard is stricter. -/
+theorem addDiagonalGuard_stricter_example :
+    addDiagonalGuard [3, 3] [2, 3] = .error .shape ∧ addDiagonalShape? [3, 3] [2, 3] = some [2, 3, 3] := by decide
+
+/-- base `mul` (tensor / operator operand) accepts exactly torch-broadcastable shapes, with the broadcast shape. -/
+theorem mulGuard_iff (a b s : List Nat) : mulGuard a b = .ok s ↔ broadcastShapes? a b = some s := by
+  simp only [mulGuard]
+  cases broadcastShapes? a b <;> simp
+
+/-- base `__add__(Tensor)` under `settings.debug`: exactly the ≥ 2-d tensors whose shape broadcasts with the operator's. -/
+theorem addTensorGuard_iff (a b s : List Nat) :
+    addTensorGuard a b = .ok s ↔ 2 ≤ b.length ∧ broadcastShapes? a b = some s := by
+  simp only [addTensorGuard]
+  by_cases h : b.length < 2
+  · simp [h]; omega
+  · simp only [h, if_false, mulGuard_iff]
+    constructor
+    · intro hs; exact ⟨by omega, hs⟩
+    · intro ⟨_, hs⟩; exact hs
+
+/-- whatever `add_diagonal` accepts, the result has the operator's shape. -/
+theorem addDiagonalGuard_shape (a d s : List Nat) (h : addDiagonalGuard a d = .ok s) : s = a := by
+  simp only [addDiagonalGuard] at h
+  split at h
+  · cases h
+  · split at h
+    · cases h
+    · split at h
+      · simp at h; exact h.symm
+      · split at h
+        · split at h
+          · simp at h; exact h.symm
+          · cases h
+        · split at h
+          · simp at h; exact h.symm
+          · cases h
+
+/-- `inv_quad_logdet`'s guard (CG path), matrix right-hand sides: accepted iff same batch shape and matching rows
+(strictly stronger than torch: no batch broadcasting). -/
+theorem iqlGuard_iff (A B : List Nat) (n k p : Nat) :
+    iqlGuard (A ++ [n, n]) (B ++ [k, p]) = .ok () ↔ A.length = B.length ∧ A = B ∧ n = k := by
+  have h1 : ¬ ((A ++ [n, n]).length = 2 ∧ (B ++ [k, p]).length = 1) := by simp
+  simp only [iqlGuard, split2_append, ne_eq, not_true_eq_false, if_false, h1]
+  by_cases hl : (A ++ [n, n]).length = (B ++ [k, p]).length
+  · simp only [hl, not_true_eq_false, if_false]
+    have hl' : A.length = B.length := by simpa using hl
+    by_cases hc : A = B ∧ n = k
+    · obtain ⟨rfl, rfl⟩ := hc; simp
+    · have : ¬A = B ∨ ¬n = k := by
+        by_cases ha : A = B
+        · right; intro hn; exact hc ⟨ha, hn⟩
+        · left; exact ha
+      simp only [this, if_true]
+      constructor
+      · intro h; cases h
+      · intro ⟨_, h2, h3⟩; exact absurd ⟨h2, h3⟩ hc
+  · simp only [hl, not_false_eq_true, if_true]
+    constructor
+    · intro h; cases h
+    · intro ⟨h, _⟩; exfalso; apply hl; simp [h]
+
+/-- …and for a vector against an unbatched operator: accepted iff the length matches. -/
+theorem iqlGuard_vec (n p : Nat) : iqlGuard [n, n] [p] = .ok () ↔ n = p := by
+  have hs : split2 [n, n] = some ([], n, n) := split2_append [] n n
+  simp only [iqlGuard, hs]
+  by_cases h : n = p <;> simp [h]
+
+/-- **Dense `expand` (base guard + `tensor.expand`) accepts exactly what torch's `expand` accepts on the dense tensor, with
+the same result shape**, for both admissible spellings of the matrix sizes. -/
+theorem denseExpand_iff_torch (A : List Nat) (m n : Nat) (S : List Int) (r c : Int)
+    (h : (r = m ∧ c = n) ∨ (r = -1 ∧ c = -1)) (s : List Nat) :
+    denseExpand (A ++ [m, n]) (S ++ [r, c]) = .ok s ↔ torchExpand? (A ++ [m, n]) (S ++ [r, c]) = some s := by
+  have hg : expandMatrixGuard (A ++ [m, n]) (S ++ [r, c]) = .ok S := by
+    simp [expandMatrixGuard, split2_append, h]
+  have hn : ¬ ((n : Int) = -1) := by omega
+  have hm : ¬ ((m : Int) = -1) := by omega
+  have hn0 : ¬ ((n : Int) < 0) := by omega
+  have hm0 : ¬ ((m : Int) < 0) := by omega
+  have key : torchExpand? (A ++ [m, n]) (S ++ [r, c]) = torchExpand? (A ++ [m, n]) (S ++ [(m : Int), (n : Int)]) := by
+    rcases h with ⟨rfl, rfl⟩ | ⟨rfl, rfl⟩
+    · rfl
+    · simp [torchExpand?, torchExpandRev, hn, hm, hn0, hm0]
+  rw [key]
+  simp only [denseExpand, split2_append, expandGuard, hg]
+  by_cases hb : expandBatchOkRev A.reverse S.reverse = true
+  · simp only [hb, if_true]
+    cases torchExpand? (A ++ [m, n]) (S ++ [(m : Int), (n : Int)]) <;> simp
+  · have hb' : expandBatchOkRev A.reverse S.reverse = false := by simpa using hb
+    have hnone : torchExpand? (A ++ [m, n]) (S ++ [(m : Int), (n : Int)]) = none := by
+      have h2 : (torchExpandRev A.reverse S.reverse).isSome = false := by
+        cases hx : (torchExpandRev A.reverse S.reverse).isSome with
+        | false => rfl
+        | true => rw [← expandBatchOkRev_iff_torch] at hx; rw [hx] at hb'; cases hb'
+      simp only [torchExpand?, List.reverse_append, List.reverse_cons, List.reverse_nil, List.nil_append,
+        List.cons_append, torchExpandRev, hn, hm, hn0, hm0, if_false, true_or, if_true]
+      cases hx : torchExpandRev A.reverse S.reverse with
+      | none => simp
+      | some v => simp [hx] at h2
+    simp [hb', hnone]
+
+/-- **The executable `broadcastShapes?` (used by every guard model) is exactly torch's broadcasting rule**, stated as a
+relation: result rank = the larger rank; right-aligned, each pair of sizes is equal or contains a 1; the result takes
+the non-1 size — for all ranks and sizes. -/
+theorem broadcastShapes_iff_rel (a b s : List Nat) :
+    broadcastShapes? a b = some s ↔ BroadcastRel a.reverse b.reverse s.reverse := by
+  rw [← bcastRev_rel]
+  simp only [broadcastShapes?]
+  cases bcastRev a.reverse b.reverse with
+  | none => simp
+  | some r =>
+    simp only [Option.map_some, Option.some.injEq]
+    constructor
+    · intro h; rw [← h]; simp
+    · intro h; rw [h]; simp
+
+example : BroadcastRel [3, 1, 2] [3, 4] [3, 4, 2] := by
+  rw [← bcastRev_rel]; decide
+
+example : addDiagonalGuard [2, 3, 3] [3] = .ok [2, 3, 3] ∧ addDiagonalGuard [2, 3, 3] [2, 1] = .ok [2, 3, 3] := by decide
+example : denseExpand [1, 3, 3] [4, 2, -1, -1] = .ok [4, 2, 3, 3] := by decide
+example : iqlGuard [2, 3, 3] [2, 3, 5] = .ok () := by decide
+
 /-! ### `solve` and `expand` -/
 
 /-- base `solve` accepts exactly the right-hand sides for which `A⁻¹R` exists (square ∧ torch-valid
@@ -383,7 +523,162 @@ theorem expandGuard_iff_torch (A : List Nat) (m n : Nat) (S : List Int) (r c : I
     rw [← expandBatchOkRev_iff_torch]
     cases expandBatchOkRev A.reverse S.reverse <;> simp
 
+/-- the entry check of `__getitem__` returns a position inside the dimension -/
+theorem rangeCheck_lt (size : Nat) (i : Int) (k : Nat) (h : rangeCheck size i = .ok k) : k < size := by
+  simp only [rangeCheck] at h
+  split at h
+  · split at h
+    · simp at h; omega
+    · cases h
+  · split at h
+    · simp at h; omega
+    · cases h
+
+/-- **With the entry check in place the modular `_get_indices` (Kronecker / Block / BatchRepeat `fmod`) cannot wrap**:
+on every index the guard lets through (normalised to `k`), `fmod(size)` is the identity. -/
+theorem guarded_fmodIndex_is_identity (size : Nat) (i : Int) (k : Nat) (h : rangeCheck size i = .ok k) :
+    fmodIndex size k = k :=
+  fmodIndex_in_range size k (rangeCheck_lt size i k h)
+
+/-- …and Toeplitz' `(row − col).fmod(n).abs()` is the dense entry's `|r − c|` for every guarded index pair. -/
+theorem guarded_toeplitzIndex (n : Nat) (i j : Int) (r c : Nat)
+    (hi : rangeCheck n i = .ok r) (hj : rangeCheck n j = .ok c) :
+    toeplitzIndex n r c = ((r : Int) - c).natAbs :=
+  toeplitzIndex_in_range n r c (rangeCheck_lt n i r hi) (rangeCheck_lt n j c hj)
+
+example : rangeCheck 4 (-1) = .ok 3 := by decide
+
 /-! ### Obligations over the table regenerated from the source on every run -/
+
+/-- How the shape / index guard of a public entry point is accounted for. -/
+inductive GuardRef
+  | lemma (thm : Lean.Name)                 -- its own guard is modelled; `thm` is the proved characterisation
+  | via (method : String) (thm : Lean.Name) -- forwards its operand to public `method`, whose guard lemma is `thm`
+  | alwaysRaises                            -- raises for every operand (ZeroLinearOperator is not invertible)
+  | scalarOnly                              -- takes a python scalar only; no shape to check
+  | sweepOnly                               -- no proved guard: covered by the implementation sweep against torch only
+  | uncovered                               -- neither proved nor swept (base sqrt_inv_matmul: contour-integral quadrature)
+
+def GuardRef.proved : GuardRef → Bool
+  | .lemma _ | .via _ _ | .alwaysRaises | .scalarOnly => true
+  | _ => false
+
+/-- entry point ↦ guard lemma.  The names are checked by the elaborator (``` ``name ``` must resolve to a declaration). -/
+def guardTable : List ((String × String) × GuardRef) := [
+  (("AddedDiagLinearOperator", "__add__"), .sweepOnly),
+  (("ConstantDiagLinearOperator", "__add__"), .sweepOnly),
+  (("DenseLinearOperator", "__add__"), .sweepOnly),
+  (("DiagLinearOperator", "__add__"), .sweepOnly),
+  (("KroneckerProductAddedDiagLinearOperator", "__add__"), .sweepOnly),
+  (("KroneckerProductLinearOperator", "__add__"), .sweepOnly),
+  (("LinearOperator", "__add__"), .lemma ``addTensorGuard_iff),
+  (("LowRankRootAddedDiagLinearOperator", "__add__"), .sweepOnly),
+  (("LowRankRootLinearOperator", "__add__"), .sweepOnly),
+  (("SumLinearOperator", "__add__"), .sweepOnly),
+  (("TriangularLinearOperator", "__add__"), .sweepOnly),
+  (("ZeroLinearOperator", "__add__"), .lemma ``mulGuard_iff),
+  (("LinearOperator", "__getitem__"), .lemma ``rangeCheck_iff_indexValid),
+  (("LinearOperator", "__matmul__"), .via "matmul" ``matmulBroadcastShape_iff_torch),
+  (("LinearOperator", "__mul__"), .via "mul" ``mulGuard_iff),
+  (("LinearOperator", "__radd__"), .via "__add__" ``addTensorGuard_iff),
+  (("LinearOperator", "__rmatmul__"), .via "rmatmul" ``matmulBroadcastShape_iff_torch),
+  (("LinearOperator", "__rmul__"), .via "mul" ``mulGuard_iff),
+  (("LinearOperator", "__rsub__"), .via "__add__" ``addTensorGuard_iff),
+  (("LinearOperator", "__sub__"), .via "__add__" ``addTensorGuard_iff),
+  (("LinearOperator", "add"), .via "__add__" ``addTensorGuard_iff),
+  (("AddedDiagLinearOperator", "add_diagonal"), .sweepOnly),
+  (("DiagLinearOperator", "add_diagonal"), .sweepOnly),
+  (("KroneckerProductLinearOperator", "add_diagonal"), .sweepOnly),
+  (("LinearOperator", "add_diagonal"), .lemma ``addDiagonalGuard_iff),
+  (("LowRankRootLinearOperator", "add_diagonal"), .sweepOnly),
+  (("TriangularLinearOperator", "add_diagonal"), .sweepOnly),
+  (("ZeroLinearOperator", "add_diagonal"), .sweepOnly),
+  (("BatchRepeatLinearOperator", "add_jitter"), .scalarOnly),
+  (("LinearOperator", "add_jitter"), .scalarOnly),
+  (("ToeplitzLinearOperator", "add_jitter"), .scalarOnly),
+  (("LinearOperator", "expand"), .lemma ``expandGuard_iff_torch),
+  (("CholLinearOperator", "inv_quad"), .via "solve" ``solveGuard_iff),
+  (("LinearOperator", "inv_quad"), .lemma ``invQuadGuard_iff),
+  (("ZeroLinearOperator", "inv_quad"), .alwaysRaises),
+  (("BatchRepeatLinearOperator", "inv_quad_logdet"), .via "inv_quad_logdet" ``matmulBroadcastShape_iff_torch),
+  (("BlockDiagLinearOperator", "inv_quad_logdet"), .sweepOnly),
+  (("BlockInterleavedLinearOperator", "inv_quad_logdet"), .sweepOnly),
+  (("CatLinearOperator", "inv_quad_logdet"), .via "inv_quad_logdet" ``matmulBroadcastShape_iff_torch),
+  (("CholLinearOperator", "inv_quad_logdet"), .via "inv_quad" ``solveGuard_iff),
+  (("DiagLinearOperator", "inv_quad_logdet"), .lemma ``matmulBroadcastShape_iff_torch),
+  (("IdentityLinearOperator", "inv_quad_logdet"), .lemma ``matmulBroadcastShape_iff_torch),
+  (("KroneckerProductAddedDiagLinearOperator", "inv_quad_logdet"), .via "inv_quad_logdet" ``iqlGuard_iff),
+  (("KroneckerProductLinearOperator", "inv_quad_logdet"), .via "inv_quad_logdet" ``iqlGuard_iff),
+  (("LinearOperator", "inv_quad_logdet"), .lemma ``iqlGuard_iff),
+  (("LowRankRootAddedDiagLinearOperator", "inv_quad_logdet"), .sweepOnly),
+  (("SumKroneckerLinearOperator", "inv_quad_logdet"), .sweepOnly),
+  (("TriangularLinearOperator", "inv_quad_logdet"), .sweepOnly),
+  (("ZeroLinearOperator", "inv_quad_logdet"), .alwaysRaises),
+  (("BlockDiagLinearOperator", "matmul"), .via "matmul" ``matmulBroadcastShape_iff_torch),
+  (("ConstantDiagLinearOperator", "matmul"), .via "matmul" ``diagMatmulGuarded_iff_torch),
+  (("DiagLinearOperator", "matmul"), .lemma ``diagMatmulGuarded_iff_torch),
+  (("IdentityLinearOperator", "matmul"), .lemma ``identityMatmulGuarded_iff_torch),
+  (("InterpolatedLinearOperator", "matmul"), .lemma ``matmulBroadcastShape_iff_torch),
+  (("LinearOperator", "matmul"), .lemma ``matmulBroadcastShape_iff_torch),
+  (("ZeroLinearOperator", "matmul"), .lemma ``matmulBroadcastShape_iff_torch),
+  (("LinearOperator", "mul"), .lemma ``mulGuard_iff),
+  (("ZeroLinearOperator", "mul"), .lemma ``mulGuard_iff),
+  (("LinearOperator", "rmatmul"), .via "matmul" ``matmulBroadcastShape_iff_torch),
+  (("CholLinearOperator", "solve"), .lemma ``solveGuard_iff),
+  (("DiagLinearOperator", "solve"), .via "matmul" ``diagMatmulGuarded_iff_torch),
+  (("IdentityLinearOperator", "solve"), .lemma ``solveLeft_iff),
+  (("KroneckerProductTriangularLinearOperator", "solve"), .lemma ``solveLeft_iff),
+  (("LinearOperator", "solve"), .lemma ``solveLeft_iff),
+  (("LowRankRootAddedDiagLinearOperator", "solve"), .lemma ``solveGuard_iff),
+  (("TriangularLinearOperator", "solve"), .sweepOnly),
+  (("ZeroLinearOperator", "solve"), .alwaysRaises),
+  (("DiagLinearOperator", "sqrt_inv_matmul"), .via "matmul" ``diagMatmulGuarded_iff_torch),
+  (("IdentityLinearOperator", "sqrt_inv_matmul"), .lemma ``identityMatmulGuarded_iff_torch),
+  (("LinearOperator", "sqrt_inv_matmul"), .uncovered),
+  (("LinearOperator", "sub"), .via "__add__" ``addTensorGuard_iff)]
+
+/-- the entry points without a proved guard statement (every other one is `.proved`) -/
+def unprovedEntryPoints : List (String × String) := [
+  ("AddedDiagLinearOperator", "__add__"),
+  ("ConstantDiagLinearOperator", "__add__"),
+  ("DenseLinearOperator", "__add__"),
+  ("DiagLinearOperator", "__add__"),
+  ("KroneckerProductAddedDiagLinearOperator", "__add__"),
+  ("KroneckerProductLinearOperator", "__add__"),
+  ("LowRankRootAddedDiagLinearOperator", "__add__"),
+  ("LowRankRootLinearOperator", "__add__"),
+  ("SumLinearOperator", "__add__"),
+  ("TriangularLinearOperator", "__add__"),
+  ("AddedDiagLinearOperator", "add_diagonal"),
+  ("DiagLinearOperator", "add_diagonal"),
+  ("KroneckerProductLinearOperator", "add_diagonal"),
+  ("LowRankRootLinearOperator", "add_diagonal"),
+  ("TriangularLinearOperator", "add_diagonal"),
+  ("ZeroLinearOperator", "add_diagonal"),
+  ("BlockDiagLinearOperator", "inv_quad_logdet"),
+  ("BlockInterleavedLinearOperator", "inv_quad_logdet"),
+  ("LowRankRootAddedDiagLinearOperator", "inv_quad_logdet"),
+  ("SumKroneckerLinearOperator", "inv_quad_logdet"),
+  ("TriangularLinearOperator", "inv_quad_logdet"),
+  ("TriangularLinearOperator", "solve"),
+  ("LinearOperator", "sqrt_inv_matmul")]
+
+open LinOp.Generated.C19 in
+/-- **Every public entry point of the generated table is mapped to exactly one guard account**: the hand-kept `guardTable`
+has no duplicate keys, covers every generated entry point (class that defines the method × method) and has no stale row.
+A new override of `matmul`, `solve`, `__add__`, … in any class adds an entry point that has no row and breaks this. -/
+theorem guards_complete :
+    (guardTable.map (·.1)).Nodup ∧
+    entryPoints.all (fun e => (guardTable.lookup e).isSome) = true ∧
+    guardTable.all (fun r => entryPoints.contains r.1) = true := by decide +kernel
+
+/-- Exactly the listed entry points lack a proved guard lemma (they are compared with torch by the sweep only, the base
+`sqrt_inv_matmul` not even that); all others point to a theorem of this file, to a forwarding target with one, or
+trivially need none. -/
+theorem unproved_entry_points_are_the_known_ones :
+    (guardTable.filter (fun r => !r.2.proved)).map (·.1) = unprovedEntryPoints := by decide +kernel
+
+example : (guardTable.lookup ("DiagLinearOperator", "matmul")).isSome = true := by decide
 
 open LinOp.Generated.C19 in
 /-- Every class's public `matmul` is defined by a class whose guard behaviour is modelled
